@@ -763,7 +763,8 @@ pub fn aligned_pointer_packets() -> Vec<Vec<u8>> {
 /// One accepted packet per (record type, data shape): data that looks like names/pointers must be treated as
 /// opaque for every type the library does not understand. Calls f(index, packet) for the accepted ones.
 pub fn all_types_packets(pointer_free_only: bool, mut f: impl FnMut(u64, &[u8])) -> u64 {
-    let shapes: [&[u8]; 5] = [&[0xc0, 0x0c], &[1, b'z', 0], &[0, 5, 0xc0, 0x0c], &[3, b'w', b'w', b'w', 0xc0, 0x0c], &[0xc0, 0x0c, 0xc0, 0x0c, 9, 9, 9, 9, 9, 9, 9, 9, 9, 9, 9, 9, 9, 9, 9, 9, 9, 9, 9, 9]];
+    // the last two: data that is exactly one pointer-free name sharing a suffix with (or equal to) the question name
+    let shapes: [&[u8]; 7] = [&[0xc0, 0x0c], &[1, b'z', 0], &[0, 5, 0xc0, 0x0c], &[3, b'w', b'w', b'w', 0xc0, 0x0c], &[0xc0, 0x0c, 0xc0, 0x0c, 9, 9, 9, 9, 9, 9, 9, 9, 9, 9, 9, 9, 9, 9, 9, 9, 9, 9, 9, 9], &[4, b'm', b'a', b'i', b'l', 1, b'q', 1, b'a', 0], &[1, b'q', 1, b'a', 0]];
     let mut n = 0u64;
     for t in 0..=0xffffu32 {
         for sh in shapes.iter() {
